@@ -238,3 +238,46 @@ def overwritten_results(prog, scope_ids):
             seen.add(k)
             res.append((body, b, l))
     return res
+
+
+def join_inner_fates(prog, body):
+    """JoinHandle<Result<_, storage error>>::join sites: what happens to the thread's own Result (the
+    Ok payload of join()).  Returns list of (block, fates); 'discarded' when the payload is never taken out."""
+    from .model import place_proj
+    out = []
+    for b, t in body.calls():
+        f = t.get("f") or ""
+        if not (f.endswith("JoinHandle::<T>::join") and "thread" in f):
+            continue
+        d = t.get("dest")
+        if d is None or not is_bare(d):
+            continue
+        row = body.types[body.locals[d]]
+        if not (row["k"] == "adt" and row.get("def") == "core::result::Result" and row.get("a")):
+            continue
+        inner = body.types[row["a"][0]]
+        if not (inner["k"] == "adt" and inner.get("def") == "core::result::Result" and len(inner.get("a", [])) == 2 and is_storage_err(body.types[inner["a"][1]])):
+            continue
+        from .model import RESULT_ADAPTERS
+        locs = flows_to(body, d, through_calls=tuple(RESULT_ADAPTERS) + ("core::ops::try_trait::Try::branch",))
+        inner_locals = set()
+        for bi in body.normal_blocks():
+            for st in body.stmts(bi):
+                if st.get("r") != "use" or not is_bare(st["d"]):
+                    continue
+                pl = op_place(st["o"][0]) if st.get("o") else None
+                if pl is None or is_bare(pl) or place_local(pl) not in locs:
+                    continue
+                pr = place_proj(pl)
+                if any(e.startswith("d:") and e.split(":", 2)[2] in ("Ok", "Continue") for e in pr):
+                    trow = body.types[body.locals[st["d"]]]
+                    if trow["k"] == "adt" and trow.get("def") == "core::result::Result" and len(trow.get("a", [])) == 2 and is_storage_err(body.types[trow["a"][1]]):
+                        inner_locals.add(st["d"])
+        if not inner_locals:
+            out.append((b, {"discarded"}))
+            continue
+        fates = set()
+        for l in inner_locals:
+            fates |= fate_of_local(body, l)
+        out.append((b, fates))
+    return out
